@@ -63,8 +63,8 @@ class TString(Type):
             return "".join(rng.choice("abcxyz") for _ in range(n))
         n = rng.randrange(lo, hi + 1)
         if self.adversarial and rng.random() < 0.6:
-            alphabet = ["a", "b", " ", "'", "\"", "[", "]", "/", "=", "*", ".", "\\", "\t", "<", ">", "&", "é", "€",
-                        "😀", ":", ";", "{", "}", "\n", "\u00a0", "z"]
+            alphabet = ["a", "b", " ", "'", "\"", "[", "]", "/", "=", "*", ".", "\\", "\t", "<", ">", "&", "é", "€", "\r",
+                        "😀", ":", ";", "{", "}", "\n", "\u00a0", "z", "\r", "\x7f", "\u2028", "\ufffd"]
             s = "".join(rng.choice(alphabet) for _ in range(n))
         elif self.letters:
             s = "".join(rng.choice("ghxyzq") for _ in range(n))
@@ -902,3 +902,74 @@ def walk(forest, path=()):
     for i, n in enumerate(forest):
         yield n, forest, i
         yield from walk(n.children)
+
+
+# ------------------------------------------------------------------------------------------------
+# deriving a second instance that shares structure with the first (for diff / merge)
+# ------------------------------------------------------------------------------------------------
+def _units(schema_children):
+    """top-level units of a parent's schema: a choice (with everything below it) is one unit"""
+    return list(schema_children)
+
+
+def _unit_members(u):
+    if u.kind == "choice":
+        return {id(n) for n, _ in flatten_children([u])}
+    return {id(u)}
+
+
+def cross(rng, a, b, schema_children):
+    """mix two valid sibling lists over the same schema so that the result is valid again: per schema unit take A's or
+    B's instances, or recurse into containers / list entries with equal keys; user-ordered instances get shuffled"""
+    out = []
+    for u in _units(schema_children):
+        mem = _unit_members(u)
+        ia = [n for n in a if id(n.schema) in mem]
+        ib = [n for n in b if id(n.schema) in mem]
+        r = rng.random()
+        if u.kind == "container" and ia and ib and r < 0.5:
+            c = ia[0].clone()
+            c.children = cross(rng, ia[0].children, ib[0].children, u.children)
+            if c.children or u.presence:
+                out.append(c)
+            continue
+        if u.kind == "list" and u.keys and ia and ib and not u.unique and u.maxel is None and r < 0.6:
+            keyof = lambda n: tuple(c.value for c in n.children if c.schema.name in u.keys)  # noqa: E731
+            bk = {keyof(n): n for n in ib}
+            res = []
+            for n in ia:
+                k = keyof(n)
+                if k in bk and rng.random() < 0.7:
+                    c = n.clone()
+                    keys = [x for x in c.children if x.schema.name in u.keys]
+                    rest_a = [x for x in n.children if x.schema.name not in u.keys]
+                    rest_b = [x for x in bk[k].children if x.schema.name not in u.keys]
+                    c.children = keys + cross(rng, rest_a, rest_b, [x for x in u.children if x.name not in u.keys])
+                    res.append(c)
+                elif rng.random() < 0.7:
+                    res.append(n.clone())
+            have = {keyof(n) for n in res}
+            for n in ib:
+                if keyof(n) not in have and rng.random() < 0.4:
+                    res.append(n.clone())
+            if len(res) < u.minel:
+                res = [n.clone() for n in ia]
+            if u.userord:
+                rng.shuffle(res)
+            out += res
+            continue
+        if u.kind == "leaf-list" and u.userord and ia and r < 0.6:
+            res = [n.clone() for n in ia if rng.random() < 0.8]
+            vals = {n.value for n in res}
+            for n in ib:
+                if n.value not in vals and rng.random() < 0.5:
+                    res.append(n.clone())
+                    vals.add(n.value)
+            if len(res) < u.minel or (u.maxel is not None and len(res) > u.maxel):
+                res = [n.clone() for n in ia]
+            rng.shuffle(res)
+            out += res
+            continue
+        src = ia if r < 0.5 else ib
+        out += [n.clone() for n in src]
+    return out
